@@ -196,8 +196,8 @@ impl Rec {
         self.case += 1;
         let args = Args::from_fields(&fields);
         let mut groups: Vec<(Out, Vec<usize>)> = Vec::new();
-        for (i, pool) in self.pools.iter().enumerate() {
-            let t = i + 1;
+        for pool in self.pools.iter() {
+            let t = pool.current_num_threads();
             let r = pool.install(|| guarded(|| exec(kern, &args)));
             let o = match r {
                 Ok(o) => o,
@@ -370,7 +370,10 @@ fn main() {
     let out = out.expect("--out FILE");
     let thorough = tier == "thorough";
     let seed: u64 = std::env::var("VERIF_SEED").ok().and_then(|s| s.parse().ok()).unwrap_or(1);
-    let pools = (1..=17)
+    // 1..=17 and the first counts beyond the next powers of two (thresholds of the form
+    // ceil(m / threads) < c bite first just above a power of two)
+    let pools = (1..=17usize)
+        .chain([33usize, 65])
         .map(|t| rayon::ThreadPoolBuilder::new().num_threads(t).build().unwrap())
         .collect();
     let mut r = Rec {
